@@ -9,7 +9,7 @@ The histories get statistics snapshots inserted (`stats` op of s_proto.c: nng_st
 UNIT parts (same idea, component level, the real source text included by the harness): URL (u_urlfail.c),
 WebSocket frame layer (u_wsfail.c = u_ws.c + valloc), HTTP connection / message layer (u_httpfail.c = u_http.c +
 valloc).  REAL part: harness/r_allocfail.c (open + listen + dial + one REQ/REP exchange + close over inproc, ipc,
-tcp with real threads; search only, the allocation order is not deterministic)."""
+tcp, udp with real threads; search only, the allocation order is not deterministic)."""
 import os, time, json, re, hashlib, subprocess
 from .. import core, build, lean, sim, protos
 
@@ -507,7 +507,12 @@ def real_part(tier, seed, v, only=None):
         jobs = [(only["transport"], only["k"])] * 8
         trans, counts = [only["transport"]], {}
     else:
-        trans = ["inproc", "ipc", "tcp", "ipc-nb", "tcp-nb"] + (["ws"] if os.environ.get("VERIF_C20_REAL_WS") else [])
+        # udp (SP/UDP, a datagram transport with its own connection handshake CREQ/CACK/DISC): no step needs a result beyond
+        # REAL_OK.  A listener that cannot create the pipe for a CREQ answers DISC(NOBUF) and the synchronous dial fails
+        # with NNG_ECONNREFUSED (6, already allowed for every transport); a message hit by the failure is dropped and the
+        # exchange step times out (5, already allowed); a pipe the REP socket could not start is disconnected (DISC) and the
+        # request times out.  The after_* steps use a fresh requester and a fresh dialer, so they must all be 0.
+        trans = ["inproc", "ipc", "tcp", "udp", "ipc-nb", "tcp-nb", "udp-nb"] + (["ws"] if os.environ.get("VERIF_C20_REAL_WS") else [])
         counts = {}
         for (t, _), rc, lines, err in core.parallel_map(one, [(t, 0) for t in trans]):
             m = re.search(r"allocs=(\d+)", lines[-1]) if lines else None
